@@ -39,6 +39,8 @@ impl<'i> ExecutableInstruction<'i> for Par<'i> {
 
         let mut completeness_updater = ParCompletenessUpdater::new();
         trace_to_exec_err!(trace_ctx.meet_par_start(), self)?;
+        // :error: as it is outside of this par (e.g. the failure caught by an enclosing xor)
+        let error_descriptor = exec_ctx.error_descriptor.clone();
 
         // execute a left subgraph of par
         let left_result = execute_subgraph(self, exec_ctx, trace_ctx, &mut completeness_updater, SubgraphType::Left)?;
@@ -47,7 +49,13 @@ impl<'i> ExecutableInstruction<'i> for Par<'i> {
         let right_result = execute_subgraph(self, exec_ctx, trace_ctx, &mut completeness_updater, SubgraphType::Right)?;
 
         completeness_updater.set_completeness(exec_ctx);
-        prepare_par_result(left_result, right_result, exec_ctx)
+        let contained_failure = matches!(left_result, SubgraphResult::Failed(_)) != matches!(right_result, SubgraphResult::Failed(_));
+        let result = prepare_par_result(left_result, right_result, exec_ctx);
+        if contained_failure {
+            // the failure of one subgraph ends here: :error: is again what it was before this par
+            exec_ctx.error_descriptor = error_descriptor;
+        }
+        result
     }
 }
 
@@ -102,8 +110,6 @@ fn prepare_par_result(
     match (left_result, right_result) {
         (SubgraphResult::Succeeded, _) | (_, SubgraphResult::Succeeded) => {
             exec_ctx.last_error_descriptor.meet_par_successed_end();
-            // a failure of the other subgraph ends here, :error: is no-error again
-            exec_ctx.error_descriptor.clear_error_object_if_needed();
             Ok(())
         }
         (SubgraphResult::Failed(_), SubgraphResult::Failed(err)) => Err(err),
